@@ -62,4 +62,53 @@ theorem pipe_two_lowest (k : K) :
 
 example : ∃ k', pipe' exK1 = .ok (1, 3) k' := ⟨_, rfl⟩
 
+/-! ## readiness of a full pipe -/
+
+theorem getOfd_close (k : K) (r fd : Nat) :
+    getOfd (close k r) fd = if fd = r then none else getOfd k fd := by
+  by_cases h : fd = r
+  · subst h; simp [getOfd, close, setFd]
+  · simp [getOfd, close, setFd, h]
+
+/-- closing the only descriptor that is open on a read end of the pipe leaves the pipe without reader -/
+theorem close_last_reader (k : K) (p : Path) (r : Nat)
+    (honly : ∀ fd i o, fd ≠ r → getOfd k fd = some (i, o) → (o.pipe && o.path == p && o.rd) = false) :
+    pipeEndOpen (close k r) p false = false := by
+  unfold pipeEndOpen
+  rw [List.any_eq_false]
+  intro fd _
+  rw [getOfd_close]
+  by_cases h : fd = r
+  · simp [h]
+  · simp only [h, if_false]
+    cases hg : getOfd k fd with
+    | none => simp
+    | some io =>
+      obtain ⟨i, o⟩ := io
+      have := honly fd i o h hg
+      simpa using this
+
+/-- ★ A writer blocked on a full pipe becomes ready when the last reader closes.
+    While a reader exists, the full pipe is not ready for writing and a write answers EAGAIN (the writer
+    waits in `select`); once the only read descriptor is closed, `select` reports the write end ready and
+    the write answers EPIPE at once — the pipe being still full does not matter. -/
+theorem blocked_writer_released_when_last_reader_closes (k : K) (w r i : Nat) (o : Ofd) (bs : Bytes)
+    (hg : getOfd k w = some (i, o)) (hp : o.pipe = true) (hw : o.wr = true) (hfull : o.full = true)
+    (hwr : w ≠ r) (hrd : pipeEndOpen k o.path false = true)
+    (honly : ∀ fd i' o', fd ≠ r → getOfd k fd = some (i', o') → (o'.pipe && o'.path == o.path && o'.rd) = false) :
+    writeReady k w = .ok false ∧ writeAny k w bs = .err .EAGAIN ∧
+    writeReady (close k r) w = .ok true ∧ writeAny (close k r) w bs = .err .EPIPE := by
+  have hclosed := close_last_reader k o.path r honly
+  have hg' : getOfd (close k r) w = some (i, o) := by rw [getOfd_close]; simp [hwr, hg]
+  refine ⟨?_, ?_, ?_, ?_⟩
+  · simp [writeReady, hg, hp, hw, hfull, hrd]
+  · simp [writeAny, hg, hp, hw, hfull, hrd]
+  · simp [writeReady, hg', hp, hw, hclosed]
+  · simp [writeAny, hg', hp, hw, hclosed]
+
+/-- the state after `pipe; fill` on descriptors 3 (read end) and 4 (write end) of the example below -/
+example : ∃ k1 k2, pipe' { exK1 with fds := fun n => if n < 3 then some ⟨0, false⟩ else none } = .ok (3, 4) k1 ∧
+    fillPipe k1 4 = .ok () k2 ∧ writeReady k2 4 = .ok false ∧ writeReady (close k2 3) 4 = .ok true ∧
+    writeAny (close k2 3) 4 [65] = .err .EPIPE := ⟨_, _, rfl, rfl, rfl, rfl, rfl⟩
+
 end YashModel.Kernel
